@@ -21,8 +21,22 @@ MODE = "c13"
 TH = [None, 0, 1, 2, 2**32 - 1]
 
 
+def phi_boundary():
+    """Explicit phi whose default threshold floor(phi*n) sits exactly ON an integer for a
+    reachable n (0.7*10, 0.01*200, 0.3*10): a copy whose phi is off in the last bits (a narrower
+    float on the way through the file) answers the default-threshold query differently."""
+    return [
+        dict(args=[4, 2, 2, 0.7], S=1, mults=[1, 3, 6], depth=3, thresholds=[None, 2], keep=[0, 5],
+             ngrams=[]),
+        dict(args=[4, 2, 2, 0.01], S=1, mults=[1, 199], depth=2, thresholds=[None], keep=[0, 5],
+             ngrams=[]),
+        dict(args=[4, 2, 2, 0.3], S=1, mults=[3, 7], depth=2, thresholds=[None], keep=[0, 5],
+             ngrams=[]),
+    ]
+
+
 def configs(tier, seed):
-    out = []
+    out = phi_boundary()
     if tier == "quick":
         for args in ([1, 1, 2], [2, 1, 2], [1, 2, 3], [2, 2, 4]):
             out.append(dict(args=args, S=2, mults=[1, 2], depth=3, thresholds=TH, keep=[0, 1, 2, 3, 5]))
@@ -38,7 +52,7 @@ def configs(tier, seed):
 
 
 def pool_size(tier):
-    return 6 if tier == "quick" else 16
+    return 8 if tier == "quick" else 16
 
 
 def task(arg):
